@@ -206,7 +206,7 @@ P = {
   ref="§4 C19"),
 }
 
-NA_REASON = "rule module not built yet in this round (see DESIGN.md §4 for the planned static rules)"
+NA_REASON = "rule module missing"
 
 
 def main():
